@@ -652,3 +652,33 @@ N('C17', 'test through local names', CONGC,
   "        return self.rep[t1] == self.rep[t2]", "        return self.rep[t2] == self.rep[t1]")
 N('C17', 'forest edge added before the size comparison is undone', CONGC,
   "                # Update the proof forest.\n                self._add_edge_proof_forest(a, b, E)\n", "                self._add_edge_proof_forest(a, b, E)\n")
+
+# ------------------------------------------------------------------------------------------- C15
+SATF = 'prover/sat.py'
+B('C15', 'resolution step not recorded in the certificate', SATF,
+  "                    has_resolution = True\n                    proof.append(propagate_id)\n", "                    has_resolution = True\n", 'C15.X1', 'recorded')
+B('C15', 'certificate records the conflict clause instead of the reason clause', SATF,
+  "                    proof.append(propagate_id)", "                    proof.append(clause_id)", 'C15.X1', 'recorded')
+B('C15', 'certificate does not start at the conflict clause', SATF,
+  "        proof = [clause_id]", "        proof = []", 'C15.X1', 'certificate-starts-at-conflict-clause')
+B('C15', 'index of the learned clause taken after appending it', SATF,
+  "        new_id = len(cnf)\n        cnf.append(clause)", "        cnf.append(clause)\n        new_id = len(cnf)", 'C15.X2', 'index-of-learned-clause')
+B('C15', 'unsatisfiable reported for unit clauses too', SATF,
+  "        if len(clause) == 0:\n            return 'unsatisfiable'\n        elif len(clause) == 1:", "        if len(clause) <= 1 and level == 0:\n            return 'unsatisfiable'\n        elif len(clause) == 1:", 'C15.X2', 'unsatisfiable-only-for-recorded-empty-clause')
+B('C15', 'satisfiable reported after any pass without propagation', SATF,
+  "                if not has_unsatisfied:\n                    return 'satisfiable'\n                else:\n                    return None", "                return 'satisfiable'", 'C15.X3', 'satisfiable-needs(not has_unsatisfied)')
+B('C15', 'clauses with two or more open literals not counted as unsatisfied', SATF,
+  "                    else:\n                        has_unsatisfied = True", "                    else:\n                        pass", 'C15.X3', 'unsatisfied-clause-accounted')
+B('C15', 'propagated literal stored without its reason', SATF,
+  "                        assigns[name] = (val, False, level, clause_id)", "                        assigns[name] = (val, False, level, None)", 'C15.X4', 'trail-write(propagation)')
+B('C15', 'backtracking reads the reason as the level', SATF,
+  "            if assigns[name][2] > backtrack_level:", "            if assigns[name][3] > backtrack_level:", 'C15.X4', 'level-component')
+B('C15', 'a connective is treated as logical without an expansion theorem', 'prover/tseitin.py',
+  "    return t.is_implies() or t.is_equals() or t.is_conj() or t.is_disj() or t.is_not()", "    return t.is_implies() or t.is_equals() or t.is_conj() or t.is_disj() or t.is_not() or t.is_comb('xor', 2)", 'C15.X5', 'one-expansion-per-connective')
+B('C15', 'sign of a converted literal inverted', 'prover/tseitin.py',
+  "            return (lit.arg.name, False)\n        else:\n            return (lit.name, True)", "            return (lit.arg.name, True)\n        else:\n            return (lit.name, False)", 'C15.X5', 'sign')
+N('C15', 'exits of unit propagation merged', SATF,
+  "            if not has_propagate:\n                if not has_unsatisfied:\n                    return 'satisfiable'\n                else:\n                    return None",
+  "            if not has_propagate and not has_unsatisfied:\n                return 'satisfiable'\n            if not has_propagate:\n                return None")
+N('C15', 'certificate appended after the step it records', SATF,
+  "                    proof.append(propagate_id)\n                    clause = resolution(clause, cnf[propagate_id], name)", "                    clause = resolution(clause, cnf[propagate_id], name)\n                    proof.append(propagate_id)")
